@@ -98,6 +98,7 @@ type LinkInfo struct {
 	Outside  bool   // Lexical is outside src (separator aware)
 	Allowed  bool
 	Climbs   bool // relative target that rises above the archive root at its own position
+	ViaLink  bool // reads as inside the tree, leaves it only by way of another link
 }
 
 func (run *Run) Links(c Case) []LinkInfo {
@@ -115,12 +116,20 @@ func (run *Run) Links(c Case) []LinkInfo {
 			li.Climbs = ClimbsAbove(n.Path, li.Target)
 		}
 		li.Outside = !fsx.Inside(run.Src, li.Lexical)
+		// ... or the way the operating system follows it, through other links of the tree
+		phys, _, loop := fsx.Resolve(filepath.Dir(filepath.Join(run.Src, n.Path)), li.Target)
+		if !loop && !fsx.Inside(run.Src, phys) {
+			if !li.Outside {
+				li.ViaLink = true
+			}
+			li.Outside = true
+		}
 		for _, a := range c.Opts.Allow {
 			p := fsx.Subst(a, run.Vars)
 			if !filepath.IsAbs(p) {
 				p = filepath.Join(run.Src, p)
 			}
-			if fsx.Inside(p, li.Lexical) {
+			if fsx.Inside(p, li.Lexical) || (li.ViaLink && fsx.Inside(p, phys)) {
 				li.Allowed = true
 			}
 		}
